@@ -42,12 +42,14 @@ def readBlockHeader (l : Bytes) : Option ((UInt32 × UInt32 × UInt32) × Bytes)
 /-- `read_data_block(buf, starting_position)` -/
 def readDataBlock (inflate : Inflate) (whole : Bytes) (pos : Nat) : Option (Option Bytes) :=
   match readBlockHeader (whole.drop pos) with
-  | none => none                                  -- `.unwrap()`
+  | none => some none                             -- `BlockHeader::read(..).ok()?`
   | some ((_size, x, y), l) =>
-    -- a negative length becomes a `usize` beyond any allocation: capacity overflow
-    if y ≥ 0x80000000 then none
-    else if x ≥ 0x80000000 then none
+    -- `usize::try_from` / `u64::try_from` of a negative length: `None`
+    if y ≥ 0x80000000 then some none
+    else if x ≥ 0x80000000 then some none
     else if x < 32000 then
+      -- `MAX_DECOMPRESSED_BLOCK_SIZE`: a deflated block declaring more than 1 MiB is refused
+      if y.toNat > 1048576 then some none else
       match bytes x.toNat l with
       | none => some none
       | some (compressed, _) => some (inflate compressed y.toNat)
@@ -369,8 +371,10 @@ def readLodBlocks (inflate : Inflate) (whole : Bytes) :
       match u16le tbl with
       | none => some none                              -- `read_le::<i16>().ok()?`
       | some (s, tbl) =>
-        match addU64 running (i16AsU64 s) with
-        | none => none
+        -- `u64::try_from(i16)`: a negative block size is corrupt (`None`); `checked_add`
+        if s ≥ 0x8000 then some none else
+        match addU64 running s.toNat with
+        | none => some none
         | some running =>
           match readLodBlocks inflate whole n running tbl with
           | none => none
